@@ -149,11 +149,14 @@ func menu(w *world, names []string, full bool) []op {
 				)
 			}
 		}
+		out = append(out,
+			op{Op: "clear", D: d},
+			op{Op: "filter", D: d, Rm: map[int]bool{1: true, 2: true, 3: true, 4: true, 5: true}})
 		if full {
 			out = append(out,
-				op{Op: "clear", D: d}, op{Op: "clear", D: d, A: true},
+				op{Op: "clear", D: d, A: true},
 				op{Op: "listall", D: d}, op{Op: "readdirbulk", D: d},
-				op{Op: "filter", D: d}, op{Op: "filter", D: d, Rm: map[int]bool{1: true, 2: true, 3: true, 4: true, 5: true}},
+				op{Op: "filter", D: d},
 				op{Op: "filter", D: d, Rm: map[int]bool{1: true}, StopAt: 1},
 				op{Op: "setattr", D: d, K: "size"}, op{Op: "setattr", D: d, K: "other"},
 				op{Op: "readdir", D: d, Page: 1, Sid: -1}, op{Op: "readdir", D: d, Page: 2, Sid: -1},
@@ -233,8 +236,11 @@ func TestEnumerate(t *testing.T) {
 		stride := common.EnvInt("VERIF_STRIDE", 1)
 		e := &enumerator{tr: tr, seed: s, names: names, stride: stride, offset: int(common.Seed())}
 		d := depth
-		if !wide && i != 1 && d > 1 {
-			d = 1 // quick: deeper sequences from the "mixed" seed only
+		if !wide && stride > 1 && i != 1 && i != 3 && d > 1 {
+			d = 1 // quick: longer sequences from the "mixed" and the "lazy" seed only
+		}
+		if i == 3 && stride > 1 {
+			e.stride = 2 * stride
 		}
 		if d > 1 {
 			// all single calls first, then the longer sequences
